@@ -143,6 +143,54 @@ func (c *Ctx) Finish(positiveLoaded bool) {
 				Msg: fmt.Sprintf("rule fired %d times on the positive example package, expected %d: rule is dead", ri.PositiveGot, ri.PositiveWant)})
 		}
 	}
+	c.deferToEvaluation()
+}
+
+// DecidedByEvaluation names, for structural rules whose clause an evaluated rule of the same property decides on a
+// finite input family, those evaluated rules. Where such a structural rule does not recognise the code in front of it
+// (it reports a violation or cannot decide) and every evaluated rule named here was evaluated on this tree - no family
+// member outside the interpreter's model - and found nothing, the structural verdict is withdrawn: the shape is
+// unknown to the rule, the behaviour the clause is about was read off the code itself. A change that breaks the
+// behaviour on the family is still reported, by the evaluated rule.
+var DecidedByEvaluation = map[string][]string{}
+
+func (c *Ctx) deferToEvaluation() {
+	status := map[string]int{} // evaluated rule id -> 1 evaluated and clean, 2 not usable
+	for _, o := range c.Obs {
+		for _, evs := range DecidedByEvaluation {
+			for _, ev := range evs {
+				if o.Rule != ev {
+					continue
+				}
+				if o.Verdict != OK || strings.Contains(o.Msg, "not evaluated") {
+					status[ev] = 2
+				} else if status[ev] == 0 {
+					status[ev] = 1
+				}
+			}
+		}
+	}
+	for i := range c.Obs {
+		o := &c.Obs[i]
+		if o.Verdict == OK || o.Construct == "positive-example" {
+			continue
+		}
+		evs, ok := DecidedByEvaluation[o.Rule]
+		if !ok {
+			continue
+		}
+		all := len(evs) > 0
+		for _, ev := range evs {
+			if status[ev] != 1 {
+				all = false
+			}
+		}
+		if !all {
+			continue
+		}
+		o.Verdict, o.V = OK, "ok"
+		o.Msg = "the rule does not recognise this code (" + o.Msg + "); its clause is decided by " + strings.Join(evs, ", ") + " on their input families, which found nothing"
+	}
 }
 
 // KnownFinding is one entry of /verif/known_findings.json.
